@@ -41,6 +41,7 @@ def check(run: Run, prog: Program, model: Model, tier: str) -> None:
         "same paths. Clause 1 (all targets importable) is decided completely; the rewriter's behaviour on all programs "
         "(several imports, several aliases per import, exotic layouts) is not.")
     run.explanation += " LINE-TABLE: the list indexed by ast line numbers is not built by str.splitlines() / split('\\n'). NOTHING-TO-DO: a None return before ast.parse is accepted for substring tests only."
+    run.explanation += ' SPLICE-TERMINATED: with the alias loop unrolled twice, every element spliced into the line table that is followed by another one ends in a literal line terminator; the text cut from behind the import (no terminator when the file does not end in a newline) may only be the tail of the last element.'
     run.rule_text = ("one obligation per mapping entry (target resolves; name preserved) and per structural "
                      "clause of rewrite_imports; non-trivial = needed re-export chasing through >=1 package "
                      "__init__ or a def-use derivation inside rewrite_imports")
@@ -127,6 +128,8 @@ def check(run: Run, prog: Program, model: Model, tier: str) -> None:
     # ---------------------------------------------------------------- (4) SPAN
     _span(run, fn, records)
     _nothing_to_do(run, fn, paths)
+    _splice_terminated(run, prog, model, fn)
+    run.floor("SPLICE-TERMINATED", 1)
     # vacuity guard: if no path of the abstract evaluation records a replacement, every rule above is undecided
     run.floor("SCOPE-IMPORTFROM", 1)
 
@@ -412,6 +415,80 @@ def _span(run: Run, fn: FuncInfo, records: List[Any]) -> None:
                          f"{which}: the text kept around the import is cut while collecting; replacements are applied last-to-first, so for "
                          "two imports on one physical line the stale text of the first overwrites the rewritten second",
                          witness="'from district42 import schema; from valera import validate' keeps the v1 `valera` import")
+
+
+def _splice_terminated(run: Run, prog: Program, model: Model, fn: FuncInfo) -> None:
+    """SPLICE-TERMINATED: the output is ''.join(lines), so every element spliced into the line table that is followed by
+    another spliced element must end in a line terminator of its own.  The generated statements do (literal tail of the
+    f-string); the text cut from behind the import on its last physical line does only when the file goes on - the last line
+    of a file need not end in a newline - so it may only ever be the tail of the LAST spliced element.  Evaluated with the
+    alias loop unrolled twice (two generated statements for one import)."""
+    from ..engine import Interp
+    it = Interp(prog, model, unroll=1)
+    it.unroll_of = lambda v: 2 if v.key().endswith(", names)") else 1     # type: ignore[attr-defined]
+
+    def run1(i: Any) -> V:
+        return i.call_function(fn, [Sym("source_code", "str", ("param", "source_code")),
+                                    Sym("mapping", "dict", ("param", "mapping"))], {})
+    c = "rewrite_imports: every spliced line but the last carries its own terminator"
+    try:
+        paths = it.run_paths(run1, max_paths=3000)
+    except Exception as ex:        # pragma: no cover
+        run.undecided("SPLICE-TERMINATED", c, fn.loc, f"evaluation failed: {ex}")
+        return
+
+    def tail(v: Any) -> Tuple[str, str]:
+        """('lit', text) | ('cut', key) - the text behind the import taken from the source line | ('?', key)"""
+        if isinstance(v, Const) and isinstance(v.value, str):
+            return ("lit", v.value)
+        if isinstance(v, StrV):
+            sh = _line_shape(v)
+            if sh and sh[-1][0] == "lit":
+                return ("lit", sh[-1][1])
+            if v.pieces and not isinstance(v.pieces[-1], str):
+                return tail(v.pieces[-1][0])
+            return ("?", v.key())
+        if isinstance(v, Term) and v.op == "bin" and len(v.args) == 3 and v.args[0] == "+":
+            return tail(v.args[2])
+        if isinstance(v, Term) and any(isinstance(x, Term) and x.op == "slice" and len(x.args) == 4 and isinstance(x.args[1], V)
+                                       and "end_col_offset" in x.args[1].key() for x in _walk_values(v)):
+            return ("cut", v.key())
+        return ("?", v.key() if isinstance(v, V) else repr(v))
+    multi = 0
+    bad: List[str] = []
+    unknown: List[str] = []
+    for p in paths:
+        for ev in p.events:
+            if ev.kind == "write" and ev.data.get("how") == "setitem" and isinstance(ev.data.get("index"), Term) \
+                    and ev.data["index"].op == "sliceobj" and isinstance(ev.data.get("value"), ListV):
+                items = ev.data["value"].items
+                if len(items) < 2:
+                    continue
+                multi += 1
+                for x in items[:-1]:
+                    kind, txt = tail(x)
+                    if kind == "lit" and txt.endswith(("\n", "\r")):
+                        continue
+                    guarded = any("endswith" in k for k, _, _ in p.facts[:ev.nfacts])
+                    if kind == "cut" and not guarded:
+                        bad.append("a spliced element that is followed by another one ends with the text cut from behind the import "
+                                   "on its last physical line: that text has no terminator when the file does not end in a newline")
+                    elif kind == "lit" and not guarded:
+                        bad.append(f"a spliced element that is followed by another one ends in {txt[-12:]!r}, not in a line terminator")
+                    else:
+                        unknown.append(f"tail {txt[:60]} of a non-final spliced element")
+    if any(p.outcome == "limit" for p in paths):
+        run.undecided("SPLICE-TERMINATED", c, fn.loc, "path limit")
+    elif bad:
+        run.violated("SPLICE-TERMINATED", c, fn.loc, "; ".join(sorted(set(bad)))[:400],
+                     witness="rewrite_imports('from district42 import schema, optional_key  # noqa', m) glues the second generated import "
+                             "into the comment of the first when the file has no final newline")
+    elif unknown:
+        run.undecided("SPLICE-TERMINATED", c, fn.loc, "; ".join(sorted(set(unknown)))[:300])
+    elif multi:
+        run.holds("SPLICE-TERMINATED", c, fn.loc, f"{multi} splices of two generated statements, each non-final element ends in a literal terminator", nontrivial=True)
+    else:
+        run.holds("SPLICE-TERMINATED", c, fn.loc, "no splice of more than one element with two aliases", nontrivial=False)
 
 
 def _only_exits(body: List[ast.stmt]) -> bool:
@@ -786,4 +863,12 @@ MUTANTS += [
      "edits": [(M, "            replacements.append((start_line, end_line, node.col_offset, node.end_col_offset,\n                                 replacement_lines))",
                 "            prefix = lines[start_line].encode()[:node.col_offset].decode()\n            suffix = lines[end_line].encode()[node.end_col_offset:].decode()\n            if prefix.strip() or suffix.strip():\n                replacement_lines = [prefix + \"; \".join(x.rstrip(\"\\n\") for x in replacement_lines) + suffix]\n            replacements.append((start_line, end_line, 0, 0, replacement_lines))"),
                (M, "        prefix = lines[start_line].encode()[:col].decode()\n        suffix = lines[end_line].encode()[end_col:].decode()\n        if prefix.strip() or suffix.strip():", "        prefix = suffix = \"\"\n        if prefix.strip() or suffix.strip():")]},
+]
+
+_SPLICE_OLD = "        if prefix.strip() or suffix.strip():\n            statements"
+MUTANTS += [
+    {"name": "a trailing comment is kept on the FIRST of the generated imports (seeded C19-N)", "rule": "SPLICE-TERMINATED",
+     "edits": [(M, _SPLICE_OLD, "        if not prefix.strip() and suffix.lstrip().startswith(\"#\"):\n            first_line = replacement_lines[0].rstrip(\"\\n\") + suffix\n            replacement_lines = [first_line] + replacement_lines[1:]\n        elif prefix.strip() or suffix.strip():\n            statements")]},
+    {"name": "neutral: a trailing comment is kept on the LAST of the generated imports", "expect": "SILENT",
+     "edits": [(M, _SPLICE_OLD, "        if not prefix.strip() and suffix.lstrip().startswith(\"#\"):\n            last_line = replacement_lines[-1].rstrip(\"\\n\") + suffix\n            replacement_lines = replacement_lines[:-1] + [last_line]\n        elif prefix.strip() or suffix.strip():\n            statements")]},
 ]
